@@ -37,6 +37,8 @@ func checkC10(c *Ctx) {
 	c1Pairing(c, "R10.3")
 	c1Namespaces(c, "R10.3")
 	c10Reflected(c, "R10.3")
+	c.Rule("R10.7", "the reflection scratch buffer is emptied (or freshly taken) on every path before a value is encoded into it: what a failed encoding left behind never reaches a later value", 1)
+	c10ScratchReset(c, "R10.7")
 
 	// ---------------- R10.4 ----------------
 	type loopT struct{ pkg, typ, m, inner string }
@@ -799,4 +801,92 @@ func c10BuildOptionOrder(c *Ctx, rule string) {
 		}
 	}
 	c.Check(len(bad) == 0 && built > 0, rule, fn.String(), "caller-options-last", fn.Pos(), "on every path that builds a logger the configuration's options take effect first and the caller's after them (so the caller's ErrorOutput, hooks, … win): %v", bad)
+}
+
+// c10ScratchReset: by path exploration of jsonEncoder.encodeReflected (helpers inline): immediately before every
+// Encode into the encoder's scratch buffer that buffer was Reset or freshly taken from the pool. A reset placed after
+// the use instead is skipped when the encoding fails, and the partial output is prepended to the next reflected value.
+func c10ScratchReset(c *Ctx, rule string) {
+	er := c.Method(CorePath, "jsonEncoder", "encodeReflected")
+	jn := c.Named(CorePath, "jsonEncoder")
+	if !c.Anchor(rule, "zapcore.jsonEncoder.encodeReflected", er != nil && jn != nil) {
+		return
+	}
+	// the scratch buffer: the *buffer.Buffer field of jsonEncoder other than the line buffer "buf"
+	scratch := ""
+	if st, ok := jn.Underlying().(*types.Struct); ok {
+		for i := 0; i < st.NumFields(); i++ {
+			if strings.HasSuffix(TypeName(st.Field(i).Type()), "buffer.Buffer") && st.Field(i).Name() != "buf" {
+				scratch = st.Field(i).Name()
+			}
+		}
+	}
+	if !c.Anchor(rule, "the scratch buffer field of zapcore.jsonEncoder", scratch != "") {
+		return
+	}
+	isScratch := func(st *ConcState, v ssa.Value) bool {
+		for k := 0; k < 12; k++ {
+			if ld, ok := v.(*ssa.UnOp); ok && ld.Op == token.MUL {
+				if fa, isFA := ld.X.(*ssa.FieldAddr); isFA && fieldName(fa.X.Type(), fa.Field) == scratch {
+					return true
+				}
+			}
+			if freshBuffer(v, 0) {
+				return true // what was just stored into the field
+			}
+			nx := st.Step(v)
+			if nx == nil {
+				return false
+			}
+			v = nx
+		}
+		return false
+	}
+	seqs, trunc := ConcPaths(er, ConcCfg{
+		Event: func(in ssa.Instruction, st *ConcState) string {
+			switch x := in.(type) {
+			case *ssa.Call:
+				if IsCallTo(x, "(*go.uber.org/zap/buffer.Buffer).Reset") && isScratch(st, Args(x)[0]) {
+					return "empty"
+				}
+				if x.Call.IsInvoke() && x.Call.Method.Name() == "Encode" {
+					return "encode"
+				}
+				if f := CalleeFunc(x); f != nil && f.Pkg() != nil && f.Pkg().Path() == "go.uber.org/zap/buffer" && isMutatingBufMethod(f.Name()) && f.Name() != "Reset" && f.Name() != "TrimNewline" && isScratch(st, Args(x)[0]) {
+					return "dirty"
+				}
+			case *ssa.Store:
+				if fa, ok := x.Addr.(*ssa.FieldAddr); ok && fieldName(fa.X.Type(), fa.Field) == scratch {
+					v := x.Val
+					for k := 0; k < 8; k++ {
+						if freshBuffer(v, 0) {
+							return "empty"
+						}
+						nx := st.Step(v)
+						if nx == nil {
+							break
+						}
+						v = nx
+					}
+					return "replaced"
+				}
+			}
+			return ""
+		},
+	})
+	var bad []string
+	nEnc := 0
+	for _, sq := range seqs {
+		toks := strings.Split(sq, " ; ")
+		for i, t := range toks {
+			if t != "encode" {
+				continue
+			}
+			nEnc++
+			if i == 0 || toks[i-1] != "empty" {
+				bad = append(bad, sq)
+			}
+		}
+	}
+	c.Check(!trunc && nEnc > 0 && len(bad) == 0, rule, er.String(), "scratch-emptied-before-encode", er.Pos(), "on every one of the %d paths the scratch buffer %s is Reset or freshly taken from the pool immediately before the value is encoded into it (offending: %v)", len(seqs), scratch, bad)
 }
